@@ -49,7 +49,8 @@ def generate():
     need(gt, r"first\.segment\.is_non_core\(\) && second\.segment\.is_core\(\) && segment\.is_non_core\(\)", "valid_next_seg three-edge rule", g)
     need(gt, r"segment\.path_segment\(\)\.len\(\) as u64 - 1 - shortcut_idx", "number_of_hops formula", g)
     need(gt, r"let d = a\.cost\.cmp\(&b\.cost\)\.then\(a\.edges\.len\(\)\.cmp\(&b\.edges\.len\(\)\)\);", "sort key head", g)
-    need(gt, r"mtu = std::cmp::min\(mtu, as_entry\.mtu as u16\);", "AS MTU truncation", g)
+    need(gt, r"mtu = std::cmp::min\(mtu, u16::try_from\(as_entry\.mtu\)\.unwrap_or\(u16::MAX\)\);", "AS MTU saturation", g)
+    need(gt, r"if interfaces\.len\(\) % 2 != 0 \{\s*return Ok\(None\);", "odd interface list is skipped", g)
 
     body = f"""From Coq Require Import NArith.
 Local Open Scope N_scope.
